@@ -504,7 +504,22 @@ def binop(it, op, a, b, node=None):
                 return V(TInt, (fl,))
             md = z3.If(b.t > 0, a.t % b.t, z3.If(a.t % b.t == 0, 0, a.t % b.t + b.t))
             return V(TInt, (md,))
+        if a.sort is TInt and isinstance(op, (ast.BitAnd, ast.BitOr, ast.BitXor, ast.LShift, ast.RShift)):
+            # bitwise operators on mathematical integers: uninterpreted (nothing but functionality is assumed), so a contract that
+            # depends on their value is refuted or undecided rather than the unit leaving the subset
+            name = "int_" + type(op).__name__.lower()
+            f = _BITFUN.get(name)
+            if f is None:
+                f = _BITFUN[name] = z3.Function(name, z3.IntSort(), z3.IntSort(), z3.IntSort())
+            if z3.is_int_value(a.t) and z3.is_int_value(b.t):
+                x, y = a.t.as_long(), b.t.as_long()
+                return V(TInt, (z3.IntVal({"bitand": x & y, "bitor": x | y, "bitxor": x ^ y, "lshift": x << y if y >= 0 else 0,
+                                           "rshift": x >> y if y >= 0 else 0}[type(op).__name__.lower()]),))
+            return V(TInt, (f(a.t, b.t),))
     raise OutOfSubset(f"operator {type(op).__name__} on {a.sort}, {b.sort}")
+
+
+_BITFUN = {}
 
 
 # ----------------------------------------------------------------------------------------- iteration
